@@ -283,3 +283,14 @@ package state
 //@   requires forall k int :: {opts[k]} 0 <= k && k < len(opts) ==> opts[k] != nil
 //@   ensures [C19.deleteold] cnt(newMsgCall) == 1 && lastarg(newMsgCall, 0, String) == "delete" && lastarg(newMsgCall, 1, String) == key &&
 //@        lastarg(newMsgCall, 2) == nil && lastarg(newMsgCall, 3) != nil && *lastarg(newMsgCall, 3, *T) == oldValue
+
+// control message constructors: exactly the named control and the given offset
+//@ func SnapshotStart
+//@   props C19
+//@   ensures [C19.ctl.start] result != nil && fresh(result) && result.Headers.Control == "snapshot-start" && result.Headers.Offset == offset
+//@ func SnapshotEnd
+//@   props C19
+//@   ensures [C19.ctl.end] result != nil && fresh(result) && result.Headers.Control == "snapshot-end" && result.Headers.Offset == offset
+//@ func Reset
+//@   props C19
+//@   ensures [C19.ctl.reset] result != nil && fresh(result) && result.Headers.Control == "reset" && result.Headers.Offset == offset
